@@ -914,6 +914,7 @@ func (e *Engine) divmod(st *State, x ssa.Value, a Lin, c int64, rem bool) {
 			st.Bind(v, Const(modpos(ca.R, c)))
 		} else {
 			st.Assume(a.Sub(Var(v))) // v <= a
+			st.AddLCong(a.Sub(Var(v)), c) // a ≡ v (mod c)
 		}
 		return
 	}
